@@ -48,7 +48,7 @@ package process
 //@ spec formOK(f Form) bool = f != nil && fsize(f) >= 0 &&
 //@    (is(f, ReceiveForm) ==> kid(ReceiveForm(f).continuation_e, fsize(f))) &&
 //@    (is(f, BranchForm) ==> kid(BranchForm(f).continuation_e, fsize(f))) &&
-//@    (is(f, CaseForm) ==> branchesOK(CaseForm(f).branches, fsize(f))) &&
+//@    (is(f, CaseForm) ==> fsize(f) >= 1 && branchesOK(CaseForm(f).branches, fsize(f))) &&
 //@    (is(f, NewForm) ==> kid(NewForm(f).body, fsize(f)) && kid(NewForm(f).continuation_e, fsize(f)) && !NewForm(f).derivedFromMacro && born(f) < epoch()) &&
 //@    (is(f, SplitForm) ==> kid(SplitForm(f).continuation_e, fsize(f))) &&
 //@    (is(f, WaitForm) ==> kid(WaitForm(f).continuation_e, fsize(f))) &&
@@ -464,7 +464,7 @@ package process
 //@   requires[C09] formOK(self)
 //@   decreases[C09] fsize(self)
 // termination of the term printers: a case hands its branches to StringifyBranches, whose measure is the largest branch
-//@ spec branchesMax(bs []*BranchForm) int where (forall k int :: 0 <= k && k < len(bs) ==> fsize(Form(bs[k])) <= result) && (len(bs) >= 1 ==> (exists k int :: 0 <= k && k < len(bs) && result == fsize(Form(bs[k]))))
+//@ spec branchesMax(bs []*BranchForm) int where (forall k int :: 0 <= k && k < len(bs) ==> fsize(Form(bs[k])) <= result) && (len(bs) >= 1 ==> (exists k int :: 0 <= k && k < len(bs) && result == fsize(Form(bs[k])))) && (len(bs) == 0 ==> result == 0)
 //@ contract StringifyBranches
 //@   requires[C09] forall k int :: 0 <= k && k < len(branches) ==> branches[k] != nil && formOK(Form(branches[k]))
 //@   decreases[C09] branchesMax(branches), 1
@@ -883,9 +883,11 @@ package process
 // argument about the grammar, not mechanised.
 //@ spec nameStr(n Name) string
 //@ contract (*Name).String
+//@   requires[C09] n != nil
 //@   defines nameStr(deref(n))
 //@   ensures C15.nameFrame: buffersKept()
 //@ contract (*Label).String
+//@   requires[C09] p != nil
 //@   ensures C15.label: result == p.L
 //@   pure
 //@ spec namesStr(ns []Name, n int) string = ite(n <= 0, "", ite(n == 1, nameStr(ns[0]), namesStr(ns, n - 1) + ", " + nameStr(ns[n-1])))
